@@ -6,6 +6,7 @@ package template
 
 import (
 	"bytes"
+	"fmt"
 	"strings"
 )
 
@@ -97,6 +98,22 @@ func tTag(c context, s []byte) (context, int) {
 		return c, len(s)
 	}
 	if s[i] == '>' {
+		// Only element.name decides below whether the text that follows is scanned as markup
+		// or as the body of a special element. Every other name that the element can have
+		// because of context joining must agree with it, or the escaper and the browser
+		// would parse that text differently in one of the branches.
+		for _, name := range c.element.names {
+			if specialElements[name] != specialElements[c.element.name] {
+				_, err := sanitizerForElementContent(context{element: c.element})
+				if err == nil {
+					err = fmt.Errorf("conditional branches end in elements %q whose contents are parsed differently", c.element.names)
+				}
+				return context{
+					state: stateError,
+					err:   errorf(ErrBranchEnd, nil, 0, "%s", err),
+				}, len(s)
+			}
+		}
 		ret := context{
 			state:      stateText,
 			element:    c.element,
